@@ -2,7 +2,8 @@
 """Development aid: run the seeded changes in /verif/seeded against their owning checks, each in its own scratch worktree
 (EAO_REPO points the checks there; /repo itself is not touched). Writes /verif/seeded/<id>/detection.json.
 usage: matrix.py [ids...]      env: MATRIX_JOBS (default 3), VERIF_TIER"""
-import json, os, subprocess, sys, concurrent.futures as cf, shutil, tempfile
+import json, os, subprocess, sys, concurrent.futures as cf, shutil, tempfile, threading
+GITLOCK = threading.Lock()
 SEEDED = '/verif/seeded'
 EXTRA = {'C08_2': ['C13', 'C19'], 'C07_1': ['C14', 'C04'], 'C04_1': ['C07', 'C14'], 'C06_2': [], 'C20_1': ['C10'], 'C18_1': ['C14'], 'C13_1': ['C19'], 'C19_1': ['C13'],
          'C01_1': ['C07', 'C18'], 'C12_1': ['C02'], 'C02_1': ['C12'],
@@ -19,7 +20,8 @@ def run(mid):
     os.rmdir(wt)
     out = dict(id=mid, tier=tier, results={})
     try:
-        subprocess.run(['git', '-C', '/repo', 'worktree', 'add', '-q', '--detach', wt, 'HEAD'], check=True)
+        with GITLOCK:
+            subprocess.run(['git', '-C', '/repo', 'worktree', 'add', '-q', '--detach', wt, 'HEAD'], check=True)
         r = subprocess.run(['git', '-C', wt, 'apply', os.path.join(SEEDED, mid, 'patch.diff')], capture_output=True, text=True)
         if r.returncode != 0:
             out['error'] = 'patch does not apply: ' + r.stderr[:200]
@@ -31,7 +33,8 @@ def run(mid):
             lines = [l for l in p.stdout.splitlines() if l.startswith(('  violated', 'INCONCL', 'UNCONF', 'HARNESS', 'SHIM'))]
             out['results'][prop] = dict(exit=p.returncode, first=lines[:2])
     finally:
-        subprocess.run(['git', '-C', '/repo', 'worktree', 'remove', '--force', wt], capture_output=True)
+        with GITLOCK:
+            subprocess.run(['git', '-C', '/repo', 'worktree', 'remove', '--force', wt], capture_output=True)
         shutil.rmtree(wt, ignore_errors=True)
     json.dump(out, open(os.path.join(SEEDED, mid, 'detection.json'), 'w'), indent=1)
     return out
